@@ -146,3 +146,15 @@ also("C17", "comparison events in one path-sensitive pass; stores through kept f
 also("C18", "effects analysis of encoder methods", "Also decides that no encoder method of the codec packages writes through its receiver.")
 also("C19", "descriptor/value cursor transfer", "Also decides that each evaluator step hands on the descriptor that belongs to the value it hands on.")
 also("C20", "error discipline of refused destroys", "Also decides that a destroy request the service refuses is reported to the caller.")
+
+# rules added after the round-8 seeds and the round-6 refactorings
+also("C01", "origin rule on the CLI's root pools", "Also decides that the root-of-trust pools the CLI builds start as x509.NewCertPool (never the host store).")
+also("C03", "open-flag rule on the CLI's output back end", "Also decides that the inspection commands' output files are opened truncating, so re-emitted signed pieces carry no stale tail.")
+also("C04", "loop-bound rule on declared counts", "Also decides that the SEV metadata parse loop runs up to the declared section count itself, not a clamped copy.")
+also("C05", "combined aliasing/write rule on section buffers", "Also decides that no write goes into storage obtained from a section buffer while section buffers share a backing array.")
+also("C09", "effects analysis treating sync.Pool / sync.Map contents as shared", "Objects taken from a synchronised container count as shared between validations.")
+also("C11", "open-flag rule on the local storage writer", "Also decides that the local storage back end rewrites objects wholly.")
+also("C12", "ESP rule on wipeout functions", "Also decides that no production Wipeout reports success on a path on which one of its wipeout / destroy steps failed.")
+also("C15", "goroutines explored as calls at the spawn point", "A goroutine started by the endorse run is checked against the same flag gates as a direct call.")
+also("C18", "who-may-call rule on Reader.Read", "Also decides that no stream decoder reads a field with a single Reader.Read call (finding F21).")
+also("C19", "producer whitelist for the evaluator's values", "Also decides that every value the evaluator yields is read out of the message walked, never a descriptor default.")
